@@ -238,3 +238,39 @@ def mustMatch (syn : List (List String)) (ext : List (Option String × Option St
   G.argsMatch ext i m
 
 end Spec.Diff
+
+/-! ## class boundary of C06 pairs: primary-key membership -/
+namespace Spec.Diff
+open Model.Diff
+
+/-- a column that survives from `a` to `b` (same table name, same column name) keeps its
+primary-key membership.  Autogenerate documents that primary key changes are not detected, so
+pairs violating this are outside C06 (the harness's `pair_wf` is this predicate). -/
+def PkStable (a b : Schema) : Prop :=
+  ∀ ta ∈ a, ∀ tb ∈ b, ta.name = tb.name → ∀ ca ∈ ta.cols, ∀ cb ∈ tb.cols, ca.name = cb.name → ca.pk = cb.pk
+
+/-- decidable form evaluated by the driver -/
+def pkStableB (a b : Schema) : Bool :=
+  a.all (fun ta => b.all (fun tb => !(ta.name == tb.name) ||
+    ta.cols.all (fun ca => tb.cols.all (fun cb => !(ca.name == cb.name) || ca.pk == cb.pk))))
+
+theorem pkStableB_iff (a b : Schema) : pkStableB a b = true ↔ PkStable a b := by
+  simp only [pkStableB, PkStable, List.all_eq_true, Bool.or_eq_true, Bool.not_eq_true', beq_eq_false_iff_ne,
+    beq_iff_eq, ne_eq]
+  constructor
+  · intro h ta hta tb htb hn ca hca cb hcb hc
+    rcases h ta hta tb htb with h1 | h1
+    · exact absurd hn h1
+    · rcases h1 ca hca cb hcb with h2 | h2
+      · exact absurd hc h2
+      · exact h2
+  · intro h ta hta tb htb
+    by_cases hn : ta.name = tb.name
+    · right
+      intro ca hca cb hcb
+      by_cases hc : ca.name = cb.name
+      · exact Or.inr (h ta hta tb htb hn ca hca cb hcb hc)
+      · exact Or.inl hc
+    · exact Or.inl hn
+
+end Spec.Diff
